@@ -476,7 +476,7 @@ def inline_call(ex, st, fi, env, node):
         ex.contract_stack.pop()
     out = []
     for s, oc in results:
-        s.env = saved_env
+        s.env = dict(saved_env)      # every forked path gets its own copy of the caller's locals
         if oc is None:
             out.append((s, SV("val", Val.none, T("none"))))
         elif oc[0] == "return":
